@@ -11,9 +11,11 @@ EXPLANATION = (
     "`resync_requested` have no writer outside that table (who-may-write), namespace-level wrappers decline unknown documents "
     "as NotFound / false / None, and in engine/live.rs a dial is spawned only on the true edge of start_connect, accept delegates "
     "to accept_request with the local endpoint id, and the follow-up dial is guarded by the flag returned from finish and uses "
-    "reason Resync. NOT decided (stated as such): 'the slot is always freed' and every other progress clause — they depend on "
-    "which completion events arrive under loss, a question about interleavings of two automata and a network (model checking, "
-    "a different family)."
+    "reason Resync; (R3) every completion releases the slot: abort_connect's transition table, both completion handlers of the "
+    "live actor (dial finished, accept finished) evaluated on every result class reach finish / abort_connect for the session's "
+    "(document, peer) on every path, and once the accept callback allowed a request the acceptor's errors name the document (else the "
+    "handler cannot release). NOT decided (stated as such): progress under loss — which completion events arrive, interleavings of the "
+    "two automata over a network (model checking, a different family)."
 )
 ASSUMPTIONS = [
     "completion handlers are invoked by the runtime for every finished task (not decided)",
